@@ -10,6 +10,13 @@
 #define TRY(stmt) do { stmt; } while (0)
 #endif
 static char *verif_dirname(char *p);
+// cbmc 6.11 ships no strndup model
+static char *verif_strndup(const char *s, size_t n) {
+  char *r = calloc(1, n + 1);
+  for (size_t i = 0; i < n && i < 16 && s[i]; i++) r[i] = s[i];
+  return r;
+}
+#define strndup verif_strndup
 #undef dirname
 #define dirname verif_dirname
 #endif
